@@ -1,5 +1,6 @@
 import StraxModel.Driver.Parse
 import StraxModel.Generated.GetSplits
+import StraxModel.Generated.SplitArray
 namespace Strax.Driver
 open Strax
 
@@ -28,6 +29,10 @@ def handleC07 : List String → Option String
   | ["split", rows, t, early] => do
     let rows ← parseRows rows; let t ← t.toInt?; let e ← parseBool early
     pure <| showExcept (fun (l, r, t') => s!"{showRows l} {showRows r} {t'}") (splitArray rows t e)
+  | ["gsplit", rows, t, early] => do
+    -- the TRANSLATED source of split_array (Generated/SplitArray.lean), not the hand-written model
+    let rows ← parseRows rows; let t ← t.toInt?; let e ← parseBool early
+    pure <| showExcept (fun (l, r, t') => s!"{showRows l} {showRows r} {t'}") (Generated.SplitArray.splitArray rows t e)
   | ["mkchunk", c] => do
     let c ← parseRawChunk c
     pure <| showExcept showChunk c.mk'
